@@ -25,12 +25,12 @@ func init() {
 		Doc: "per (maxChunkSize M in 0..5, window N in {1,2,20}): every payload length 0..3M+1 as a single message and every ordered pair of such lengths, fault-free transport",
 	})
 	simrt.Register(&simrt.Scenario{
-		Prop: "C14", Name: "sizes-random", Count: tiered(2000, 30000),
+		Prop: "C14", Name: "sizes-random", Count: tiered(2000, 240000),
 		Run: c14Random, MaxOps: 4 << 20, Horizon: 4 * time.Hour,
 		Doc: "random payloads up to 256 KiB, chunk sizes up to 64 KiB or off, sequences of messages, with and without transport faults",
 	})
 	simrt.Register(&simrt.Scenario{
-		Prop: "C14", Name: "deadlines", Count: tiered(5000, 50000),
+		Prop: "C14", Name: "deadlines", Count: tiered(5000, 400000),
 		Run: c14Deadlines, MaxOps: 4 << 20, Horizon: 4 * time.Hour,
 		Doc: "multi-chunk messages with a receive or send deadline placed at (around) every chunk boundary; the timed-out call is retried",
 	})
